@@ -35,7 +35,12 @@ var opOf = map[string]string{
 	"Centroid": "OCentroid", "ConvexHull": "OConvexHull", "Boundary": "OBoundary", "PointOnSurface": "OPointOnSurface",
 	"IsSimple": "OIsSimple", "DumpCoordinates": "ODumpCoordinates", "Reverse": "OReverse", "Force2D": "OForce2D",
 	"Validate": "OValidate",
+	"ForceCW":  "OForceCW", "ForceCCW": "OForceCCW", "IsCW": "OIsCW", "IsCCW": "OIsCCW", "TransformXY": "OTransformXY",
+	"Densify": "ODensify", "Simplify": "OSimplify", "SnapToGrid": "OSnapToGrid",
 }
+
+// operations of the table whose (non-geometry) arguments do not matter for the neutral answer
+var argOps = map[string]bool{"Area": true, "TransformXY": true, "Densify": true, "Simplify": true, "SnapToGrid": true}
 
 // results that depend on the member structure by design (counts, serialisations, positional
 // accessors): excluded from the transparency comparison, still checked for panics
@@ -406,7 +411,7 @@ func main() {
 					em.call(k, tname, name, opName(name), "WBoth", tm, at.desc, dumpA, "-", o1.text, o2.text, geomVerdict(o1, o2))
 				case "N":
 					op := opName(name)
-					if op == "-" || at.desc != "()" {
+					if op == "-" || (at.desc != "()" && !argOps[name]) {
 						em.call("U", tname, name, "-", "-", "x", at.desc, dumpA, "-", o1.text, "-", "-")
 					} else {
 						em.call("N", tname, name, op, "WBoth", "x", at.desc, dumpA, "-", o1.text, "-", "-")
